@@ -77,6 +77,8 @@ class Bins(ComplexModel):
     dflt = ByteArray
     ahx = XmlAttribute(ByteArray(encoding='hex'))
     ab64 = XmlAttribute(ByteArray)
+    usf = ByteArray(encoding='urlsafe_base64')
+    ausf = XmlAttribute(ByteArray(encoding='urlsafe_base64'))
 
 
 class Pick(ComplexModel):
@@ -213,10 +215,11 @@ def spell(name, f, v, t=None):
     return '<tns:%s>%s</tns:%s>' % (name, v, name)
 
 
-def request(family, args, types=None):
+def request(family, args, types=None, fields=None):
     types = types or {}
+    fields = fields or FIELDS
     body = '<tns:check xmlns:tns="%s" xmlns:xsi="%s">%s</tns:check>' % (TNS, XSI, ''.join(
-        spell(k, FIELDS[k], v, types.get(k)) for k, v in args.items()))
+        spell(k, fields[k], v, types.get(k)) for k, v in args.items()))
     if family == 'xml':
         return body.encode('utf8')
     return soap_env(SOAP11_NS if family == 'soap11' else SOAP12_NS, body)
@@ -244,8 +247,28 @@ def _post(c, wsgi, data):
     return out, seen, b''.join(x for x in chunks if isinstance(x, bytes))
 
 
-def _mk_verdicts(family):
-    @obligation('C06.verdicts.%s' % family, targets=['spyne.protocol.xml:XmlDocument.validate_document',
+def _rederived():
+    """Every facet-carrying scalar member of FIELDS once more, derived again without touching a facet: customised with an
+    occurrence attribute only (k_m), and as the item type of an array (k_a).  The facets must still be published."""
+    out = OrderedDict()
+    for k, f in FIELDS.items():
+        if f.get('multi') or f.get('array') or f.get('raw') or not isinstance(f['base'], str):
+            continue
+        probes = [p for p in f['probe'] if isinstance(p, str) and p not in (ABSENT, NIL)]
+        if not probes:
+            continue
+        try:
+            f['type']().customize(min_occurs=1)
+        except Exception:
+            continue
+        out[k + '_m'] = dict(f, type=(lambda f=f: f['type']().customize(min_occurs=1)), probe=probes)
+        out[k + '_a'] = dict(f, type=(lambda f=f: Array(f['type']())), ok=(lambda v, f=f: all(f['ok'](x) for x in v)),
+                             base=[f['base']], probe=[[p] for p in probes] + [[f['base'], probes[-1]]], array=True)
+    return out
+
+
+def _mk_verdicts(family, FIELDS=FIELDS, oid='C06.verdicts.%s', single=False):
+    @obligation(oid % family, targets=['spyne.protocol.xml:XmlDocument.validate_document',
                                                     'spyne.protocol.xml:XmlDocument.from_element',
                                                     'spyne.interface.xml_schema.model:Tget_range_restriction_tag',
                                                     'spyne.interface.xml_schema.model:unicode_get_restriction_tag',
@@ -261,8 +284,11 @@ def _mk_verdicts(family):
         args = OrderedDict((k, f['base']) for k, f in FIELDS.items())
         if field is not None:
             args[field] = probe
-        expected_ok = all(f['ok'](args[k]) for k, f in FIELDS.items())
-        names = list(FIELDS)
+        if single and field is not None:
+            # the signature holds the probed member only (the members are independent: one application per member)
+            args = OrderedDict([(field, probe)])
+        expected_ok = all(FIELDS[k]['ok'](v) for k, v in args.items())
+        names = list(args)
         verdict = {}
         for validator in ('lxml', 'soft'):
             calls = []
@@ -282,7 +308,7 @@ def _mk_verdicts(family):
             app = Application([Svc], TNS, name='VApp', in_protocol=inp, out_protocol=outp)
             wsgi = WsgiApplication(app)
             d = app.interface.service_method_map['{%s}check' % TNS][0]
-            out, seen, resp = _post(c, wsgi, request(family, args, dict(d.in_message._type_info)))
+            out, seen, resp = _post(c, wsgi, request(family, args, dict(d.in_message._type_info), FIELDS))
             c.check('callable_returns', out.returned, detail=repr(out))
             if not out.returned:
                 return
@@ -296,6 +322,8 @@ def _mk_verdicts(family):
 
 for _f in ('xml', 'soap11', 'soap12'):
     _mk_verdicts(_f)
+for _f in ('xml', 'soap11'):
+    _mk_verdicts(_f, _rederived(), 'C06.verdicts_rederived.%s', single=True)
 
 
 # ---------------------------------------------------------------------------------------------------------
@@ -342,7 +370,8 @@ def facet_values():
               pt=Pt(x=0, unit='mm'), pt3=Pt3(x=0, y=-1, z=100, unit='cm'), pick=Pick(name='n', a=1), pts=[], o=[1], ar=[],
               enums=Enums(edt=dt.datetime(2020, 1, 1, 12, 0, 0, 0, U), edu=dt.timedelta(days=1), ede=D('1.50'),
                           eda=dt.date(2020, 2, 29), eti=dt.time(10, 0, 0), ein=-7, edo=0.5),
-              bins=Bins(hx=[b'\x00\xff\x10'], b64=[b'\x00\xff\x10'], dflt=[b'abc'], ahx=[b'\xde\xad'], ab64=[b'\xbe\xef']))
+              bins=Bins(hx=[b'\x00\xff\x10'], b64=[b'\x00\xff\x10'], dflt=[b'abc'], ahx=[b'\xde\xad'], ab64=[b'\xbe\xef'],
+                        usf=[b'\xfb\xff\xbe\xfa'], ausf=[b'\xff\xfe\xfd']))
     hi = dict(b=127, u=255, w=2 ** 31 - 1, l=2 ** 63 - 1, ul=2 ** 64 - 1, r=19, g=3, v=4, td=999, dr=D('2.499999999999'),
               dx=D('10'), dd=D('999.99'), fr=2.5, s=u'\xe9\U0001f600zz', sl=u'中文x', p='zzzzzzzzzzzzzzzzzzzz',
               p2='999-ZZ', sv='yy', e='green', bo=True, da=dt.date(2020, 12, 31),
@@ -351,7 +380,7 @@ def facet_values():
               pts=[Pt3(x=1, unit='mm'), Pt3(x=2, y=2, z=2, unit='cm')], o=[1, 2], ar=[0, 9, 5],
               enums=Enums(edt=dt.datetime(2021, 6, 1, 0, 0, 0, 250000, U), edu=dt.timedelta(seconds=1, microseconds=500000),
                           ede=D('-2'), eda=dt.date(2021, 12, 31), eti=dt.time(23, 59, 59, 999999), ein=10 ** 20, edo=2.5),
-              bins=Bins(hx=[bytes(range(256))], b64=[b''], dflt=None, ahx=None, ab64=[b'x']))
+              bins=Bins(hx=[bytes(range(256))], b64=[b''], dflt=None, ahx=None, ab64=[b'x'], usf=[bytes(range(256))], ausf=[b'\xfb']))
     mid = dict(lo, dd=D('0.10'), dr=D('2'), dx=D('5.5'), fr=1.25, td=0, pick=Pick(), d=0,
                dt=dt.datetime(2020, 1, 1, 13, 0, 0, 0, dt.timezone(dt.timedelta(hours=5))))
     return [Facets(**lo), Facets(**hi), Facets(**mid)]
